@@ -380,7 +380,30 @@ class Impl:
         return self.OC.to_container(self.OC.structured(obj))
 
     def observe(self, fn, *a, **k):
-        """call + what `to_sleap_nn_cfg` would make of the returned attrs object"""
+        """call + what `to_sleap_nn_cfg` would make of the returned attrs object.
+
+        Shared argument objects (added after C20-r9m1): when an argument is a dict / list, the call is made on
+        a private deep copy and then REPEATED with the very same objects (a caller sweeping over one head dict);
+        a second answer that differs from the first is recorded in `repeat_diffs` and reported by `run_cases`
+        as a failing history ("every argument the caller supplies ... at its documented place" fails for call 2)."""
+        import copy
+
+        mutable = any(isinstance(x, (dict, list)) for x in list(a) + list(k.values()))
+        if mutable:
+            a, k = copy.deepcopy((a, k))
+            before = copy.deepcopy((a, k))
+        out = self._observe_once(fn, a, k)
+        if mutable:
+            again = self._observe_once(fn, a, k)
+            if again != out:
+                self.repeat_diffs = getattr(self, "repeat_diffs", [])
+                self.repeat_diffs.append({"builder": getattr(fn, "__name__", str(fn)),
+                                          "args": to_json(list(before[0])), "kwargs": to_json(before[1]),
+                                          "args_after_call_1": to_json(list(a)), "kwargs_after_call_1": to_json(k),
+                                          "call_1": out, "call_2_same_objects": again})
+        return out
+
+    def _observe_once(self, fn, a, k):
         r = call(fn, *a, **k)
         if r[0] == "raise":
             return ("raise", r[1])
@@ -2159,6 +2182,14 @@ def run_cases(chk: Check, impl: Impl, cases):
     env = impl.env_lines()
     impl.prime(cases)
     pre = [impl.run(c) for c in cases]
+    for d in getattr(impl, "repeat_diffs", []):
+        chk.case(None, tags=["shared_argument_object_call_2_differs"])
+        chk.fail(f"C20 fails on a two-call history of {d['builder']}: the same argument objects handed to the "
+                 "builder a second time give a different configuration (the first call changed the caller's argument)",
+                 {"op": "repeat", **{k_: d[k_] for k_ in ("builder", "args", "kwargs")}},
+                 {k_: show(d[k_]) if k_.startswith("call_") else d[k_] for k_ in
+                  ("args_after_call_1", "kwargs_after_call_1", "call_1", "call_2_same_objects")})
+    impl.repeat_diffs = []
     all_lines, spans = list(env), []
     for lines, _ in pre:
         spans.append((len(all_lines), len(lines)))
